@@ -77,8 +77,54 @@ def modifiable_oids(st, c, frame):
     return out
 
 
+def generate_lemma(eng, c):
+    """verify a lemma: its body is ghost code in the contract language"""
+    res = FnResult(c)
+    t0 = time.time()
+    fr = Frame(eng, None, c)
+    fr.prefix = f"lemma:{c.qualname}:"
+    ex = Exec(eng, fr, total=False, modname=None, specmod=c.specmod)
+    try:
+        st = State()
+        frame = {}
+        for p, ty in c.types.items():
+            frame[p] = eng.alloc_shape(st, ty, p)
+        st.frames = [frame]
+        if c.requires is not None:
+            st.assume(callcontract.clause(ex, st, c, c.requires, {}))
+        res.covers.append(("requires-satisfiable", bool(eng.quick_sat(st.path))))
+        if c.decreases is not None:
+            fr.entry_measure = callcontract.clause_term(ex, st, c, c.decreases, {})
+            eng.obligation(ex, st, "measure-nonneg", fr.entry_measure >= 0, "decreases")
+        entry = dict(frame)
+        outs = ex.block(st, c.body.body) if c.body is not None else [(st, (NEXT, None))]
+        res.paths = len(outs)
+        for st1, o in outs:
+            if o[0] in (NEXT, RET):
+                saved = st1.frames
+                st1.frames = [dict(entry)]
+                try:
+                    if c.ensures is not None:
+                        eng.obligation(ex, st1, "post", callcontract.clause(ex, st1, c, c.ensures, {}), "post")
+                finally:
+                    st1.frames = saved
+            elif o[0] == RAISE:
+                eng.obligation(ex, st1, f"noexc.{o[1].exc}@{o[1].site}", z3.BoolVal(False), "noexc")
+        res.covers.append(("normal-exit-reachable", True))
+    except Unsupported as u:
+        res.unsupported = str(u)
+    except Exception as e:
+        res.error = f"{type(e).__name__}: {e}\n{traceback.format_exc()}"
+    res.obligations = fr.obligations
+    res.gen_time = time.time() - t0
+    res.source_hash = "lemma"
+    return res
+
+
 def generate(eng, c):
     """symbolically execute the target of contract `c` -> FnResult with obligations"""
+    if c.kind == "lemma":
+        return generate_lemma(eng, c)
     res = FnResult(c)
     t0 = time.time()
     fi = eng.repo.func(c.module, c.qualname)
@@ -107,6 +153,9 @@ def generate(eng, c):
         # vacuity: the precondition must be satisfiable
         ok = eng.quick_sat(st.path)
         res.covers.append(("requires-satisfiable", bool(ok)))
+        # lemma instances named by the contract (each lemma is proved in the same run)
+        for h in c.hints:
+            st.assume(callcontract.clause(ex, st, c, h, {}))
         old = st.fork()
         st.old = old
         entry_heap = {oid: dict(obj) for oid, obj in st.heap.items()}
